@@ -1340,6 +1340,47 @@ def program_phase(chk, drv, r, work, tier, state, n_unit):
                                 ploidies=(2, 4) if k % 3 != 2 else (2, 4, 6), max_snvs=4, features=feats, depth=(6, 20))
             chk.count(f"dataset ploidies={sorted(ds.ploidy.values())}")
             dataset_runs(rn, ds, k, tier, plan)
+        single_report_sweep(rn, tier)
         chk.extra["program_runs"] = rn.n_runs
         chk.extra["pysam_records_read"] = rn.pysam_checked
         dump_state(chk, state)
+
+
+# every optional field requested on its own (and the INFO-only ones next to a G-length field): the fields are
+# computed from shared intermediate arrays whose computation is switched on by *other* entries of --report, so a
+# field must also be right when it is the only one asked for
+SINGLE_REPORTS = [["AOPSUM"], ["INFO/AOPSUM", "GP"], ["AFP"], ["ACP"], ["AOP"], ["INFO/AFP"], ["FORMAT/AFP"], ["INFO/ACP"],
+                  ["FORMAT/ACP"], ["INFO/AOP"], ["FORMAT/AOP"], ["AFPRIOR"], ["SNVDP"], ["GP"], ["GL"], ["INFO/AOPSUM", "GL"],
+                  ["AOPSUM", "FORMAT/AOP"], []]
+
+
+def single_report_sweep(rn, tier):
+    chk, r, work = rn.chk, rn.r, rn.work
+    sub = C.rng(f"{PROP}:single")
+    ds = S.make_dataset(sub, os.path.join(work, "dsS"), n_samples=2, n_loci=2, ploidies=(2, 4), max_snvs=3,
+                        features={"nodepth"}, depth=(8, 14))
+    ploidies = [ds.ploidy[s] for s in ds.samples]
+    fast = ["--mcmc-steps", "120", "--mcmc-burn", "40"]
+    _, recs, code, _ = rn.run(ds, "assemble", ds.assemble_argv(*fast, "--report", "AFP"), ploidies)
+    if code != 0 or not recs:
+        return
+    hap_text = open(os.path.join(work, f"out{rn.n_runs}.vcf")).read()
+    hap_gz = S.bgzip_tabix_vcf(S.write_text(os.path.join(work, "hapS.vcf"), hap_text))
+    _, in_recs = S.parse_vcf_text(hap_text)
+    ped, tau = pedigree_file(r, ds, work, "S")
+    programs = ["assemble", "call", "call-exact", "call-pedigree"]
+    sels = SINGLE_REPORTS if tier != "warm" else SINGLE_REPORTS[:2]
+    for i, sel in enumerate(sels):
+        # quick: each selection with two of the four programs (rotating with the seed); thorough: with all four
+        progs = programs if tier == "thorough" else [programs[(i + C.seed()) % 4], programs[(i + C.seed() + 2) % 4]]
+        for program in progs:
+            rep = (["--report", *sel] if sel else [])
+            if program == "assemble":
+                rn.run(ds, "assemble", ds.assemble_argv(*fast, *rep), ploidies)
+                continue
+            extra = fast if program != "call-exact" else []
+            if program == "call-pedigree":
+                extra = extra + ["--sample-parents", ped, "--gamete-ploidy", tau]
+            rn.run(ds, program, ["mchap", program, "--bam", *ds.bams, "--ploidy", ds.ploidy_file, "--haplotypes", hap_gz,
+                                 *extra, *rep], ploidies, in_records=in_recs)
+        chk.count("single-report-selection")
